@@ -477,7 +477,11 @@ func runC34Provider(r *mon.Run, pool *gen.Pool, rng *rand.Rand, i int, tl timeli
 		// Premise: a trusted chain that the call could see is handed out
 		// (local ones always; fetched ones only when nothing local is trusted).
 		visible := e.Where == "db" || !anyLocalTrusted
-		if ok && visible && !tl.PredMissing {
+		if ok && visible && !tl.PredMissing && why == "grace" && tl.PredExpiredInCase {
+			// trusted only through a predecessor that has itself expired:
+			// the statement is silent (see Assumptions), observed only.
+			r.Event("observed_chain_of_expired_predecessor_withheld")
+		} else if ok && visible && !tl.PredMissing {
 			st.provTrustedWithheld++
 			r.Event("premise_trusted_chain_withheld")
 			if st.provTrustedWithheld <= 3 {
@@ -505,15 +509,27 @@ func checkC34(r *mon.Run) {
 		"verification instant (exact boundary instants via VerifyOptions.CurrentTime); expectation from the plan, compared with " +
 		"cppki.VerifyChain. B) TRC timeline (base only / update in grace / grace over / not yet valid / expired / predecessor missing) × " +
 		"chains stored in a real sqlite trust DB or served by a scripted Fetcher; every chain handed out by FetchingProvider.GetChains " +
-		"must be trusted by the timeline model at both bracket instants. class = reason × outcome (A), timeline × source × chain kind × outcome (B)"
+		"must be trusted by the timeline model at both bracket instants. C) slow remote: nothing stored locally, the latest TRC (base, or update with " +
+		"the grace period over) reaches NotAfter 1-2 s after GetChains starts, the scripted Fetcher answers shortly after that instant with a rogue-rooted / " +
+		"signature-forged / genuine / mixed reply; a chain that verifies under no TRC of the world must be neither handed out nor stored (time-independent), " +
+		"the genuine chain's outcome is recorded only. class = reason × outcome (A), timeline × source × chain kind × outcome (B), " +
+		"timeline × reply × chain kind × outcome (C)"
 	r.Assumptions = []string{
 		"crypto/x509 certificate creation and parsing are trusted to build the inputs",
 		"the statement is an 'only if': rejecting a conforming chain is not judged, but the run is reported broken unless every conforming chain was accepted (the premise that makes the rejections meaningful)",
 		"a CA path length other than 0 (certificates.rst says 'should be 0') is treated as a constraint violation",
-		"duplicate ISD-AS attributes and an expired predecessor TRC inside the grace period are observed but not judged (statement silent)",
+		"duplicate ISD-AS attributes and an expired predecessor TRC inside the grace period are observed but not judged (statement silent); " +
+			"a chain trusted only through such an expired predecessor that is withheld does not count against the premise either",
+		"slow-fetch phase: whether a genuine chain may still be handed out when its TRC reached NotAfter during the call is not judged (ambiguous); " +
+			"only chains that verify under no TRC at any time are demanded to be refused and not stored",
 	}
 	pool := gen.NewPool(64, 8, 8)
 	st := &c34Stats{}
+
+	// Part C first (a few real seconds, concurrent cases): its samples are kept.
+	tSlow := time.Now()
+	runC34SlowPhase(r, pool, st)
+	r.Extra("slow_fetch_phase_wall_s", time.Since(tSlow).Seconds()) // coverage information only
 
 	rngA := r.Rand("c34-verify")
 	w := buildC34World(pool, rngA)
@@ -542,6 +558,7 @@ func checkC34(r *mon.Run) {
 	if st.selfCheckFailed == 0 {
 		r.Class("premise/generator-self-check-clean")
 	}
-	r.RequireClasses("premise/every-conforming-chain-accepted", "premise/generator-self-check-clean")
-	r.Require(int64(nA+nB/2), 60, "verify_accepted", "verify_rejected", "provider_handed_out", "provider_withheld")
+	r.RequireClasses("premise/every-conforming-chain-accepted", "premise/generator-self-check-clean", "slow-fetch/rogue/refused")
+	r.Require(int64(nA+nB/2), 60, "verify_accepted", "verify_rejected", "provider_handed_out", "provider_withheld",
+		"slow_fetch_case", "slow_fetch_untrusted_refused")
 }
